@@ -200,14 +200,12 @@ OnPresent(ev) ==
 (***************************************************************************)
 (* Verify                                                                  *)
 (***************************************************************************)
-ResolverKeyT(res, pl) == IF res.kind = "const" THEN res.key
-                         ELSE LET i == StrField(pl, "iss") IN IF i \in DOMAIN res.map THEN res.map[i] ELSE ""
 WhyClause(why) == "verify.lenient." \o why
 OnVerify(ev) ==
   LET m == ev.in
       implok == ev.out.st = "ok"
       parsed == m # NONE /\ ParseOK(m)
-      rk == IF parsed THEN ResolverKeyT(ev.res, m.jwt.pl) ELSE ""
+      rk == IF parsed THEN ResolverKeyOf(ev.res, m.jwt) ELSE ""
       r == IF m = NONE THEN [v |-> "reject", why |-> "parse"]
            ELSE SpecVerify(m, rk, ev.aud, ev.nonce, ev.t0, ev.t1, st.ledger, KeyFamT, st.jwks)
       hon == IF m = NONE THEN {} ELSE {h \in st.honest : h.mid = MsgId(m)}
@@ -230,7 +228,8 @@ OnVerify(ev) ==
             IF h.sel = ALLSEL THEN claims = cnf(Plain(c.at))
             ELSE (h.tc /\ h.full) => claims = cnf(View(c.at, h.sel)))
   /\ Chk("verify.clean", implok /\ creds # {}, NoReserved(claims))
-  /\ Chk("verify.calls", implok /\ "calls" \in DOMAIN ev, Len(ev.calls) >= 1 /\ \A i \in DOMAIN ev.calls : ev.calls[i].iss = StrField(m.jwt.pl, "iss") /\ ev.calls[i].alg = HdrAlg(m.jwt))
+  /\ Chk("verify.calls", implok /\ "calls" \in DOMAIN ev, Len(ev.calls) >= 1 /\ \A i \in DOMAIN ev.calls : ev.calls[i].iss = StrField(m.jwt.pl, "iss") /\ ev.calls[i].alg = HdrAlg(m.jwt)
+                                                                                          /\ ("kid" \in DOMAIN ev.calls[i] => ev.calls[i].kid = StrField(m.jwt.hdr, "kid")))
   /\ Chk("pair.format", ev.pair # 0 /\ (\E p \in st.vpairs : p.id = ev.pair),
          \A p \in {q \in st.vpairs : q.id = ev.pair} : p.ok = implok /\ (implok => p.claims = claims))
   \* (the model's expectation was computed for the instant the scenario was set up; if the clock has since moved the
